@@ -61,3 +61,5 @@ void h_cellToBoundary(void) { H3Index h = nondet_u64(); CellBoundary *cb; H3Erro
  * sixteen values are the whole domain of the field */
 void h_h3ToFaceIjk_res(void) { H3Index h = S_SETRES(nondet_u64(), FRES); FaceIJK *fijk; H3Error e = _h3ToFaceIjk(h, fijk); __CPROVER_assert(0, "canary _h3ToFaceIjk res"); }
 #endif
+void h_adjustOverageClassII(void) { FaceIJK f; f.face = nondet_int(); f.coord.i = nondet_int(); f.coord.j = nondet_int(); f.coord.k = nondet_int();
+    Overage o = _adjustOverageClassII(&f, nondet_int(), nondet_int(), nondet_int()); __CPROVER_assert(0, "canary _adjustOverageClassII"); }
